@@ -136,7 +136,14 @@ class Clean:
             # nested: another choice with a placeholder branch further inside
             return a + '(' + '|'.join(r.sample([ph(), longer(d - 1)], 2)) + ')'
 
-        alts = [ph(), longer(2)]
+        def ph_def():
+            # the placeholder reached through a definition: <D> ::= <U>;  or  <D> ::= (<U> | a(b|c));
+            n = self.f.name('D')
+            rhs = ph() if r.random() < 0.5 else '(' + ' | '.join(r.sample([ph(), longer(0)], 2)) + ')'
+            self.defs.append((n, None, rhs))
+            return '<%s>' % n
+
+        alts = [ph_def() if r.random() < 0.3 else ph(), longer(2)]
         if r.random() < 0.3:
             alts.append(self.f.lit('d'))
         r.shuffle(alts)
